@@ -207,11 +207,23 @@ class Gen:
             f = self.fresh("f")
             p = self.binder("Int", "p")
             self.scopes.append({p: "Int"})
+            pre = []
+            if r.random() < 0.4:
+                # a lambda body with statements whose values are discarded before the final expression
+                for _ in range(r.randrange(1, 3)):
+                    if r.random() < 0.5:
+                        w = self.fresh("w")
+                        pre.append("let %s = %s" % (w, self.expr("Int", 2)))
+                        self.scopes[-1][w] = "Int"
+                    else:
+                        pre.append(self.expr(self.pick(["Int", "Str", "Bool"]), 2))
             body = self.expr("Int", 1)
             self.scopes.pop()
             arg = self.expr("Int", 2)
             v = self.fresh()
             self.scopes[-1][v] = "Int"
+            if pre:
+                return "let %s = fun(%s) %s\nlet %s = %s(%s)" % (f, p, self.fmt_block(pre + [body], 0), v, f, arg)
             return "let %s = fun(%s) { %s }\nlet %s = %s(%s)" % (f, p, body, v, f, arg)
         if k == 13 and "aclosure" in self.features and nested:
             # fully annotated lambda with its own return type and an early `return` (the lambda's type, not the
